@@ -449,3 +449,53 @@ impl Spec {
         s
     }
 }
+
+/// The same file with some of its values spelled another way that denotes the same f32 (exponent notation, explicit
+/// plus sign, trailing zeros, bare leading / trailing dot): what is declared is the number, not its spelling.
+/// Only the fields after the last non-numeric field of a data line are touched (never ids or tags), comments are kept.
+pub fn respell_values(text: &str, r: &mut crate::rng::Rng) -> String {
+    let mut out = String::new();
+    for line in text.lines() {
+        let t = line.trim_start();
+        if t.starts_with('#') || !t.contains(',') || t.starts_with("vector") {
+            out.push_str(line);
+            out.push('\n');
+            continue;
+        }
+        let (body, comment) = match line.split_once('#') {
+            Some((b, c)) => (b, Some(c)),
+            None => (line, None),
+        };
+        let fields: Vec<&str> = body.split(',').collect();
+        let last_text = fields.iter().rposition(|f| f.trim().parse::<f32>().is_err()).unwrap_or(0);
+        let mut newf: Vec<String> = vec![];
+        for (i, f) in fields.iter().enumerate() {
+            let ft = f.trim();
+            let mut repl = f.to_string();
+            if i > last_text && r.chance(1, 3) {
+                if let Ok(v) = ft.parse::<f32>() {
+                    let cand = match r.below(6) {
+                        0 => format!("{:e}", v),
+                        1 => format!("{:E}", v),
+                        2 if v >= 0.0 => format!("+{}", ft),
+                        3 if ft.contains('.') => format!("{}00", ft),
+                        4 if !ft.contains('.') => format!("{}.", ft),
+                        5 if ft.starts_with("0.") => ft[1..].to_string(),
+                        _ => ft.to_string(),
+                    };
+                    if cand.parse::<f32>().map(|w| w.to_bits() == v.to_bits()).unwrap_or(false) {
+                        repl = format!(" {}", cand);
+                    }
+                }
+            }
+            newf.push(repl);
+        }
+        out.push_str(&newf.join(","));
+        if let Some(c) = comment {
+            out.push('#');
+            out.push_str(c);
+        }
+        out.push('\n');
+    }
+    out
+}
